@@ -31,7 +31,7 @@ PROFILE = {
                 tags=ALL_TAGS - {"load"}, backend="numpy", ru=(False, True), schemes=modelcase.SCHEMES),
 }
 
-CONSTS = {"NumLex": "<- NumLexDef", "BigToks": "{}", "NameOrder": "<- NameOrderDef"}
+CONSTS = {"NumLex": "<- NumLexDef", "BigToks": "{}", "NameOrder": "<- NameOrderDef", "ExtraLayouts": "{}"}
 
 
 def run_tlc_struct(chk, invs, ninter, emit_mod, simulate=None, timeout=1500, free_schedule=False):
